@@ -100,7 +100,11 @@ class Driver(object):
             else:
                 st = 'OPEN "%s" FOR %s AS %d' % (a['name'], word, n)
             e.update(name=a['name'], mode=a['mode'])
-            if a['mode'] in ('I', 'A'):
+            if a.get('busy'):
+                # an OPEN FOR OUTPUT/APPEND of a file that is open under the other number: it is refused and must change nothing;
+                # the host file is looked at only when its holder is reading (a writer's stream need not be flushed)
+                hostnames = [a['name']] if a['busy'] == 'I' else []
+            elif a['mode'] in ('I', 'A'):
                 # nobody is writing the file: the host file is stable and LOF can be compared with its size
                 hostnames = [a['name']]
         elif op == 'close':
@@ -305,6 +309,16 @@ def random_history(d, rng):
     budget = rng.randint(20, 70)
     while budget > 0:
         n = rng.choice([1, 2])
+        if n not in d.open and (3 - n) in d.open and rng.random() < 0.08:
+            # a second OPEN FOR OUTPUT / APPEND of the file the other number holds: refused (File already open), nothing changes
+            # (round-2 seeded change C24b opened - and truncated - the host file before the refusal)
+            hn, hm = d.open[3 - n]
+            e = d.do({'op': 'open', 'n': n, 'name': hn, 'mode': rng.choice('OOA'), 'form': rng.randint(0, 1), 'busy': hm})
+            d.refused_opens = getattr(d, 'refused_opens', 0) + (not e['ok'])
+            budget -= 1
+            if e['ok']:
+                break           # accepted: judged by the trace spec (open files differ from the model); the plans no longer apply
+            continue
         if not plans[n] and n not in d.open:
             busy = [v[0] for v in d.open.values()] + [p[0]['name'] for k, p in plans.items() if p and p[0]['op'] == 'open']
             free = [nm for nm in NAMES if nm not in busy]
@@ -446,6 +460,7 @@ def run(ctx):
         d.s.close()
     verdicts = run_validation(ctx, d)
     ctx.cov['traces_validated_against_impl'] += nwalk + nh + 2
+    ctx.cov['refused_second_opens'] = getattr(d, 'refused_opens', 0)
     ev = d.events
     stats = collections.Counter()
     for e in ev:
